@@ -42,6 +42,7 @@ def conic_case(draw, tier="quick"):
     what = draw(st.sampled_from(["from_points", "from_crossratio", "from_tangent", "from_foci", "from_points_complex"]))
     return {"what": what, "pts": [[draw(C.ints(6)), draw(C.ints(6))] for _ in range(5)], "line": draw(C.ivec(3, 6)), "s": [draw(C.scale()) for _ in range(5)],
             "diag": draw(st.sampled_from([0, 0, 1, 2, 3])),
+            "trap": draw(st.sampled_from([None, None, None, [1, 2], [2, -1], [-1, -3], [-2, 1], [3, 3], [-1, -1]])), "tv": [draw(st.integers(-2, 2)), draw(st.integers(-2, 2))],
             "axis": draw(st.sampled_from([None, None, [1, 0, 0], [1, 0, 0], [0, 1, 0], [0, 0, 1], [1, 1, 0], [1, 0, 1], [0, 1, 1], [1, -1, 0], [-2, 0, 0]]))}
 
 
@@ -111,6 +112,18 @@ def run_conic(c):
         return ck.result()
     if what == "from_tangent":
         four = pts[:4]
+        if c.get("trap") is not None and c.get("diag"):
+            # a trapezoid: the two connecting lines that meet in the chosen diagonal point are parallel (the diagonal point is at
+            # infinity) and so is the tangent; the second point of each pair lies in either direction from the first
+            tv, (k1, k2) = c.get("tv", [1, 0]), c["trap"]
+            if len(tv) != 2 or not any(tv) or k1 == 0 or k2 == 0 or any(not isinstance(x, int) or abs(x) > 3 for x in list(tv) + [k1, k2]):
+                raise Skip("malformed trapezoid")
+            i, j, k, m = {1: (0, 2, 1, 3), 2: (0, 1, 2, 3), 3: (0, 3, 1, 2)}[c["diag"]]
+            four = [list(p) for p in four]
+            four[j] = [four[i][0] + k1 * tv[0], four[i][1] + k1 * tv[1]]
+            four[m] = [four[k][0] + k2 * tv[0], four[k][1] + k2 * tv[1]]
+            pts = four + [pts[4]]
+            c = dict(c, pts=pts)
         if c.get("axis") is not None and not c.get("diag"):
             # tangent lines with zero coordinates: the coordinate axes, the line at infinity (parabolas), lines through the origin
             if len(c["axis"]) != 3 or not any(c["axis"]) or any(not isinstance(x, int) or abs(x) > 2 for x in c["axis"]):
@@ -386,8 +399,9 @@ def cone_labels(c):
 
 LAWS = [
     Law("conic_constructors", lambda tier: conic_case(tier), run_conic, lambda c: True,
-        lambda c: [c["what"]] + (["tangent:" + ",".join(str(x) for x in c["axis"])] if c["what"] == "from_tangent" and c.get("axis") is not None and not c.get("diag") else []), {"quick": 2000, "thorough": 30000},
-        "from_points / from_crossratio / from_tangent / from_foci", shard=300, mandatory=("tangent:1,0,0", "tangent:0,1,0")),
+        lambda c: [c["what"]] + (["tangent:" + ",".join(str(x) for x in c["axis"])] if c["what"] == "from_tangent" and c.get("axis") is not None and not c.get("diag") else [])
+        + (["trapezoid-with-parallel-tangent"] if c["what"] == "from_tangent" and c.get("trap") is not None and c.get("diag") else []), {"quick": 2500, "thorough": 30000},
+        "from_points / from_crossratio / from_tangent / from_foci", shard=300, mandatory=("tangent:1,0,0", "tangent:0,1,0", "trapezoid-with-parallel-tangent")),
     Law("round", lambda tier: round_case(tier), run_round, lambda c: any(c["c"]), lambda c: [c["what"]] + (["moved-by-a-similarity"] if c.get("moved") else []), {"quick": 1000, "thorough": 20000},
         "Circle / Ellipse / Sphere: locus membership, center, radius, foci, area, volume; also after a similarity (scaling, translation) of the library", shard=300, mandatory=("moved-by-a-similarity",)),
     Law("cone_cylinder", lambda tier: cone_case(tier), run_cone, cone_nontrivial, cone_labels, {"quick": 1200, "thorough": 25000},
